@@ -55,6 +55,7 @@ pub fn probes(prop: &str, _tier: &str) -> Vec<String> {
     "probe.alg.ES256",
     "probe.alg.ES256K",
     "probe.b64_false",
+    "probe.b64_explicit_true",
     "probe.detached",
     "probe.verified_ok",
     "probe.general_multi_signer",
@@ -71,6 +72,8 @@ pub fn probes(prop: &str, _tier: &str) -> Vec<String> {
       "fault.adversary.wrong_detached_payload",
       "fault.adversary.strip_signature",
       "probe.tampered_rejected",
+      "probe.assembled_mixed_b64",
+      "fault.adversary.header_names_other_ec_alg",
     ]);
   } else {
     v.extend([
@@ -160,6 +163,7 @@ fn b64(b: &[u8]) -> String {
 }
 
 fn new_kms_signer(n: usize, k256: bool) -> Signer {
+  let pin_alg = ctx::choose(2) == 0;
   let did = format!("did:sim:kms{n}");
   let mut seed = ctx::bytes(32);
   seed[0] |= 1;
@@ -175,6 +179,11 @@ fn new_kms_signer(n: usize, k256: bool) -> Signer {
     let jwk = serde_json::json!({"kty":"EC","crv":"P-256","alg":"ES256","x": b64(pt.x().unwrap()), "y": b64(pt.y().unwrap())});
     (EcKey::P256(sk), jwk, "ES256")
   };
+  let mut jwk = jwk;
+  if !pin_alg {
+    // a key that does not pin an algorithm: the header's alg alone decides which verification is attempted
+    jwk.as_object_mut().unwrap().remove("alg");
+  }
   let j: Jwk = serde_json::from_value(jwk.clone()).expect("EC JWK");
   let m = VerificationMethod::new_from_jwk(CoreDID::parse(&did).unwrap(), j, Some("ec")).expect("method");
   let doc = CoreDocument::builder(Default::default())
@@ -289,6 +298,8 @@ struct Notice {
   parts: Vec<SigPart>,
   nonce: Option<String>,
   via_create_jws: bool,
+  /// hand-assembled by the harness from two separately produced tokens (not an encoder output as a whole)
+  assembled: bool,
 }
 
 fn gen_payload(b64_flag: bool, ser: Ser, detached: bool) -> Vec<u8> {
@@ -314,10 +325,20 @@ fn gen_payload(b64_flag: bool, ser: Ser, detached: bool) -> Vec<u8> {
   p
 }
 
-fn header_json(signer: &Signer, b64_flag: bool, nonce: &Option<String>, extra: bool) -> Value {
-  let mut h = serde_json::json!({"alg": signer.alg, "kid": signer.kid()});
+fn header_json(signer: &Signer, b64_flag: bool, explicit_b64_true: bool, nonce: &Option<String>, extra: bool) -> Value {
+  // A Byzantine (or buggy) EC signer names the OTHER ECDSA algorithm in the header it signs; its key pins no alg.
+  let mut alg = signer.alg;
+  if signer.jwk.get("alg").is_none() && signer.alg != "EdDSA" && ctx::chance(1, 5) {
+    alg = if signer.alg == "ES256" { "ES256K" } else { "ES256" };
+    ctx::stat("fault.adversary.header_names_other_ec_alg");
+  }
+  let mut h = serde_json::json!({"alg": alg, "kid": signer.kid()});
   if !b64_flag {
     h["b64"] = false.into();
+    h["crit"] = serde_json::json!(["b64"]);
+  } else if explicit_b64_true {
+    // legal and equivalent to leaving the parameter out: b64 spelled out as true (and marked critical)
+    h["b64"] = true.into();
     h["crit"] = serde_json::json!(["b64"]);
   }
   if let Some(n) = nonce {
@@ -344,11 +365,16 @@ fn produce(signers: &[Signer], events: &mut Vec<SignEvent>, ser: Ser) -> Option<
   }
   order.truncate(n_signers);
   let signed_payload: Vec<u8> = if b64_flag { b64(&raw).into_bytes() } else { raw.clone() };
+  // all recipients of one token spell b64 the same way (the general encoder demands consistent b64)
+  let explicit_b64_true = b64_flag && ctx::choose(4) == 0;
+  if explicit_b64_true {
+    ctx::stat("probe.b64_explicit_true");
+  }
   let mut parts: Vec<SigPart> = Vec::new();
   let headers: Vec<(JwsHeader, Option<JwsHeader>, Value, Option<Value>)> = order
     .iter()
     .map(|si| {
-      let hj = header_json(&signers[*si], b64_flag, &nonce, ctx::choose(2) == 0);
+      let hj = header_json(&signers[*si], b64_flag, explicit_b64_true, &nonce, ctx::choose(2) == 0);
       let uj = if ser != Ser::Compact && ctx::choose(2) == 0 {
         Some(serde_json::json!({"simUnprotected": format!("u{}", ctx::choose(50))}))
       } else {
@@ -462,6 +488,63 @@ fn produce(signers: &[Signer], events: &mut Vec<SignEvent>, ser: Ser) -> Option<
     parts,
     nonce,
     via_create_jws: false,
+    assembled: false,
+  })
+}
+
+/// A general-serialisation token assembled by hand from two flattened tokens over the same payload string: one signer
+/// signs payload P with b64 (default true), the other signs the ASCII text base64url(P) as an un-encoded payload
+/// (b64=false). Both signing inputs end in the same payload string, so the assembled token is one the decoder accepts;
+/// each signature's claims must be decoded according to ITS OWN protected header.
+fn produce_assembled_mixed_b64(signers: &[Signer], events: &mut Vec<SignEvent>) -> Option<Notice> {
+  if signers.len() < 2 {
+    return None;
+  }
+  let raw = gen_payload(true, Ser::Flattened, false);
+  let text = b64(&raw);
+  let (s1, s2) = (ctx::choose(signers.len()), ctx::choose(signers.len()));
+  let mut parts: Vec<SigPart> = Vec::new();
+  let mut entries: Vec<Value> = Vec::new();
+  for (si, b64_flag, payload) in [(s1, true, raw.clone()), (s2, false, text.clone().into_bytes())] {
+    let hj = header_json(&signers[si], b64_flag, false, &None, false);
+    let h: JwsHeader = serde_json::from_value(hj.clone()).ok()?;
+    let enc = FlattenedJwsEncoder::new(&payload, Recipient::new().protected(&h), false).ok()?;
+    let input = enc.signing_input().to_vec();
+    let sig = signers[si].sign(&input).ok()?;
+    events.push(SignEvent {
+      signer: si,
+      signing_input: input.clone(),
+      signature: sig.clone(),
+    });
+    let flat: Value = serde_json::from_str(&enc.into_jws(&sig).ok()?).ok()?;
+    if flat.get("payload").and_then(|p| p.as_str()) != Some(text.as_str()) {
+      return None; // both tokens must carry the identical payload string
+    }
+    entries.push(serde_json::json!({"protected": flat["protected"], "signature": flat["signature"]}));
+    parts.push(SigPart {
+      signer: si,
+      protected_b64: flat["protected"].as_str().unwrap_or("").to_owned(),
+      protected: hj,
+      unprotected: None,
+      signature: sig,
+    });
+  }
+  if ctx::choose(2) == 0 {
+    entries.reverse();
+    parts.reverse();
+  }
+  ctx::stat("probe.assembled_mixed_b64");
+  Some(Notice {
+    ser: Ser::General,
+    wire: serde_json::json!({"payload": text, "signatures": entries}).to_string(),
+    detached: None,
+    b64: true,
+    raw_payload: raw,
+    signed_payload: text.into_bytes(),
+    parts,
+    nonce: None,
+    via_create_jws: false,
+    assembled: true,
   })
 }
 
@@ -594,6 +677,7 @@ fn produce_create_jws(signers: &[Signer], si: usize, faulty: bool) -> Option<Not
     }],
     nonce,
     via_create_jws: true,
+    assembled: false,
   })
 }
 
@@ -966,7 +1050,9 @@ fn receive(prop: &str, signers: &[Signer], events: &[SignEvent], n: &Notice, d: 
     }
   }
   // ---- per signature verdicts ----
-  let tampered = d.mv != Move::Intact;
+  // a part whose header names an algorithm of another family than its signer's key is a Byzantine production
+  let byzantine_alg = n.parts.iter().any(|p| p.protected.get("alg").and_then(|a| a.as_str()) != Some(signers[p.signer].alg));
+  let tampered = d.mv != Move::Intact || byzantine_alg;
   for (i, o) in outcomes.iter().enumerate() {
     match o {
       Ok((claims, protected, unprotected)) => {
@@ -986,6 +1072,26 @@ fn receive(prop: &str, signers: &[Signer], events: &[SignEvent], n: &Notice, d: 
             "token reported verified although no signer ever signed these bytes",
           );
         }
+        // the algorithm of the protected header must be one the caller's key can be used with at all
+        {
+          let si = n.parts.get(i).map(|p| p.signer).unwrap_or(n.parts[0].signer);
+          let k = &signers[si].jwk;
+          let fam = match (k["kty"].as_str(), k["crv"].as_str()) {
+            (Some("OKP"), Some("Ed25519")) => "EdDSA",
+            (Some("EC"), Some("P-256")) => "ES256",
+            (Some("EC"), Some("secp256k1")) => "ES256K",
+            _ => "?",
+          };
+          let alg = protected.get("alg").and_then(|a| a.as_str()).unwrap_or("");
+          if fam != alg {
+            ctx::violation(
+              "C01",
+              "C01.alg_of_header_with_callers_key",
+              format!("{ser_name}/header-alg={alg}/key={fam}/reported-verified"),
+              format!("token whose protected header names {alg} was reported verified under a {fam} key"),
+            );
+          }
+        }
         // claims handed back are the signed payload (decoded unless b64=false)
         let want_claims: Option<Vec<u8>> = rv.as_ref().and_then(|v| v.payload.clone()).and_then(|pl| {
           let b64_flag = protected.get("b64").and_then(|b| b.as_bool()).unwrap_or(true);
@@ -1003,7 +1109,7 @@ fn receive(prop: &str, signers: &[Signer], events: &[SignEvent], n: &Notice, d: 
             format!("claims handed back {:?} are not the signed payload {:?}", String::from_utf8_lossy(claims), want_claims.map(|c| String::from_utf8_lossy(&c).into_owned())),
           );
         }
-        if tampered && !matches!(d.mv, Move::BothPayloads) {
+        if d.mv != Move::Intact && !matches!(d.mv, Move::BothPayloads) {
           // any difference in protected header, payload or signature from every honest token must be rejected;
           // (a tampering that left this particular signature's bytes intact is not a difference for it)
           let intact_for_this = rv
@@ -1022,7 +1128,7 @@ fn receive(prop: &str, signers: &[Signer], events: &[SignEvent], n: &Notice, d: 
             );
           }
         }
-        if !tampered {
+        if !tampered && !n.assembled {
           // C08 I8.1: same payload, headers and signing input as signed
           if claims != &n.raw_payload {
             ctx::violation(
@@ -1233,6 +1339,11 @@ pub fn run(prop: &str, _params: &Params) {
         n.via_create_jws,
         String::from_utf8_lossy(&n.raw_payload).chars().take(40).collect::<String>()
       ));
+      notices.push(n);
+    }
+  }
+  if prop == "C01" && ctx::choose(3) == 0 {
+    if let Some(n) = produce_assembled_mixed_b64(&signers, &mut events) {
       notices.push(n);
     }
   }
